@@ -88,6 +88,11 @@ RawNode UnaryOperation(RawNode operation, RawNode operand) {
 
 RawNode RemoveBrackets(RawNode br1, RawNode operand, RawNode br2) {
   operand->token.pos = StrRange{ br1->token.pos.start, br2->token.pos.finish };
+  // Note: nested brackets - widen the node that remains in the final tree
+  for (auto* inner = operand.get(); inner->token.id == TokenID::PUNC_PL; ) {
+    inner = inner->children.at(0).get();
+    inner->token.pos = operand->token.pos;
+  }
   auto bracketNode = std::make_shared<Node>(TokenID::PUNC_PL, operand->token.pos);
   bracketNode->children.emplace_back(operand);
   return bracketNode;
